@@ -3,6 +3,8 @@
 // API calls, are released one at a time by the seeded scheduler with
 // preemption at every control-flow edge of libh3; the library's static storage
 // is write-protected for the whole run.
+#include <time.h>
+
 #include <algorithm>
 
 #include "runner.h"
@@ -585,9 +587,12 @@ int minimizeC18(const std::string &in, const std::string &outPath) {
     C18Case cs = C18Case::fromJson(*f->get("case"));
     C18Case orig = cs;
     int execs = 0;
-    const int budget = 300;
+    int budget = 200;
+    // wall-clock only bounds how far the replay file is shrunk, never a verdict
+    time_t tStart = time(nullptr);
     auto repro = [&](const C18Case &c, std::string *detail = nullptr) {
         execs++;
+        if (time(nullptr) - tStart > 45) budget = 0;
         C18Outcome o;
         execC18(c, o);
         return outcomeHas(o, cls, site, detail);
